@@ -58,7 +58,7 @@ MC_T = [('MC_Cache_quick.cfg', None), ('MC_Cache_quick_async.cfg', None),
         ('MC_Cache_w_nomrl.cfg', 'ReadsEqualSource'), ('MC_Cache_w_nowlock.cfg', 'ReadsEqualSource'),
         ('MC_Cache_w_noclamp.cfg', 'NeverBeyondSize'), ('MC_Cache_w_shortok.cfg', 'ReadsEqualSource'),
         ('MC_Cache_w_tailfront.cfg', 'ReadsEqualSource'), ('MC_Cache_w_asyncunlock.cfg', 'RefillDedup')]
-MODES_Q = [('map', 40), ('fiemap', 40), ('capfull', 30), ('async', 40), ('punchend', 6)]
+MODES_Q = [('map', 40), ('fiemap', 40), ('capfull', 30), ('async', 40), ('punchend', 2)]
 MODES_T = [('map', 700), ('fiemap', 700), ('capfull', 500), ('async', 700), ('punchend', 40)]
 
 
@@ -215,7 +215,7 @@ def run(ctx):
                 recs = list(ex.map(lambda m: record(ctx, h, m[0], m[1]), MODES_Q if quick else MODES_T))
         finally:
             clean_media(ctx)
-        allrows = []
+        allrows, directed = [], []
         for prim, rows in recs:
             for r in rows:
                 k = r['e']
@@ -228,9 +228,18 @@ def run(ctx):
             ex_ = tracecheck.split_execs(rows)
             if len(ctx.samples) < 6:
                 ctx.samples.append({'mode': prim, 'recorded_execution': ex_[min(1, len(ex_) - 1)][:40]})
-            allrows += rows
-        acc, rejs, n = tracecheck.validate(ctx, 'Trace_CacheA', 'Trace_CacheA.cfg', allrows, chunk_events=3500 if quick else 12000,
-                                           par=6, tagbase='Trace_CacheA')
+            if prim == 'punchend':
+                directed += rows
+            else:
+                allrows += rows
+        # the directed scenario is validated beside the random programs (a rejection costs three more TLC runs)
+        with ThreadPoolExecutor(max_workers=2) as ex:
+            fa = ex.submit(tracecheck.validate, ctx, 'Trace_CacheA', 'Trace_CacheA.cfg', allrows, 3500 if quick else 12000, 6, 900, 6, None, 'Trace_CacheA')
+            fb = ex.submit(tracecheck.validate, ctx, 'Trace_CacheA', 'Trace_CacheA.cfg', directed, 800, 4, 900, 6, None, 'Trace_CacheA_d') if directed else None
+            acc, rejs, n = fa.result()
+            if fb:
+                acc2, rejs2, n2 = fb.result()
+                rejs, n = rejs + rejs2, n + n2
         report(ctx, rejs, 'execution')
         drop_logs(ctx)
         ctx.extra.update({'executions_recorded': n, 'cached_reads_judged': reads, 'event_kinds': kinds})
